@@ -159,6 +159,10 @@ pub struct E2Scn {
     /// generations 1, 3, .. (each `ReplaceFilterer` installs the next generation)
     #[serde(default)]
     pub flip_ids: Vec<u32>,
+    /// paths that a *poll* watcher cannot scan: as notify's PollWatcher does, watch() succeeds but reports an io error
+    /// through the event handler, synchronously, from inside watch() - i.e. on the thread of the fs worker
+    #[serde(default)]
+    pub poll_scan_errors: Vec<u8>,
 }
 
 impl Default for E2Scn {
@@ -188,6 +192,7 @@ impl Default for E2Scn {
             filter_slow: vec![],
             watch_slow: vec![],
             flip_ids: vec![],
+            poll_scan_errors: vec![],
         }
     }
 }
@@ -259,6 +264,7 @@ pub struct LibWorld {
     pub oneshot_done: Vec<(u8, bool)>,
     pub action_gen: u32,
     pub filter_gen: u32,
+    pub scan_err_no: u32,
     pub error_gen: u32,
     pub jobs_created: u32,
     pub holders: Vec<tokio::task::JoinHandle<()>>,
@@ -444,6 +450,17 @@ impl SimWatcher {
             }
         });
         log(Ev::Watcher { w, what, path: p, rec, ok: true });
+        let scan_error = on_watch && lib(|l| l.watchers[w as usize].poll && l.scn.as_ref().map(|s| s.poll_scan_errors.contains(&p)).unwrap_or(false));
+        if scan_error {
+            // (one tag per occurrence: the same path may be scanned again by a later watcher)
+            let tag = lib(|l| {
+                l.scan_err_no += 1;
+                9000 + l.scan_err_no * 10 + p as u32
+            });
+            let fired = fire(Err(notify::Error::generic(&format!("sim-callback-error-{tag}"))));
+            log(Ev::Note { what: "fs-callback-error", a: tag as i64, b: fired as i64 });
+            log(Ev::Note { what: "poll-scan-error-inside-watch", a: p as i64, b: 0 });
+        }
         Ok(())
     }
 }
@@ -715,7 +732,27 @@ async fn producer(pi: usize, steps: Vec<PStep>, wx: Arc<Watchexec>) {
             PKind::FsFire { id } => {
                 let input = wx.verif_event_input();
                 let room = !input.is_full() && !input.is_closed();
-                let ev = notify::Event::new(notify::EventKind::Modify(notify::event::ModifyKind::Any)).add_path(PathBuf::from(format!("/sim/ev/{id}")));
+                // the shapes a notify back-end produces: every kind, one or two paths, the "rescan" flag (the
+                // back-end's own queue overflowed), tracker / info attributes - a pure function of the event id
+                use notify::event::{CreateKind, Flag, ModifyKind, RemoveKind, RenameMode};
+                let kind = match id % 6 {
+                    0 => notify::EventKind::Modify(ModifyKind::Any),
+                    1 => notify::EventKind::Create(CreateKind::File),
+                    2 => notify::EventKind::Remove(RemoveKind::Any),
+                    3 => notify::EventKind::Modify(ModifyKind::Name(RenameMode::Both)),
+                    4 => notify::EventKind::Other,
+                    _ => notify::EventKind::Modify(ModifyKind::Metadata(notify::event::MetadataKind::Any)),
+                };
+                let mut ev = notify::Event::new(kind).add_path(PathBuf::from(format!("/sim/ev/{id}")));
+                if id % 6 == 3 {
+                    ev = ev.add_path(PathBuf::from(format!("/sim/ev/{id}.renamed")));
+                }
+                if id % 7 == 3 {
+                    ev = ev.set_flag(Flag::Rescan);
+                }
+                if id % 5 == 2 {
+                    ev = ev.set_tracker(id as usize).set_info("sim");
+                }
                 log(Ev::EvSend { id, prio: 1, src: 102 });
                 let fired = fire(Ok(ev));
                 if fired {
@@ -797,7 +834,13 @@ async fn e2_root(scn: E2Scn) {
         }));
     }
     for t in tasks {
-        let _ = t.await;
+        if let Err(e) = t.await {
+            if e.is_panic() {
+                // a producer stands for a thread of the outside world (notify's, the signal handler's, a caller's): the
+                // code it called into panicked
+                log(Ev::Note { what: "producer-panicked", a: 0, b: 0 });
+            }
+        }
     }
     log(Ev::Note { what: "producers-done", a: 0, b: 0 });
     // quiescent stretch: longer than any window plus any handler
